@@ -117,6 +117,30 @@ class Evaluator:
         self.opaque_funcs: set[str] = set()
         self.opaque_methods: set[str] = set()
         self._stack: list[int] = []
+        self._call_aliases: set[str] | None = None
+        self.py_phis: set = set()  # joins written as Python conditional expressions (as opposed to lax.cond / FlagOp.cond joins)
+
+    def call_aliases(self) -> set:
+        """method names m such that some class defines `__call__(self, *a): return self.m(*a)` and no other class defines m:
+        `x.m(...)` and `x(...)` are then one operation (ChoiceMap.get_submap / ChoiceMap.__call__)"""
+        if self._call_aliases is None:
+            out = set()
+            for cis in self.prog.class_index.values():
+                for ci in cis:
+                    fn = ci.methods.get("__call__")
+                    if fn is None or fn.args.vararg is None or fn.args.args[1:] or fn.args.kwonlyargs or fn.args.kwarg:
+                        continue
+                    body = [b for b in fn.body if not (isinstance(b, ast.Expr) and isinstance(b.value, ast.Constant))]
+                    if len(body) == 1 and isinstance(body[0], ast.Return) and isinstance(body[0].value, ast.Call):
+                        c = body[0].value
+                        if (isinstance(c.func, ast.Attribute) and isinstance(c.func.value, ast.Name) and c.func.value.id == "self" and not c.keywords and len(c.args) == 1
+                                and isinstance(c.args[0], ast.Starred) and isinstance(c.args[0].value, ast.Name) and c.args[0].value.id == fn.args.vararg.arg):
+                            m = c.func.attr
+                            owners = [x for xs in self.prog.class_index.values() for x in xs if m in x.methods]
+                            if all(o.qual == ci.qual or any(s.qual == o.qual for s in self.prog.subclasses(ci.name)) for o in owners):
+                                out.add(m)
+            self._call_aliases = out
+        return self._call_aliases
 
     # ------------------------------------------------------------------ entry points
     def eval_method(self, cls_name: str, meth: str, module_suffix: str | None = None, bind: dict | None = None):
@@ -168,7 +192,61 @@ def is_t(t, tag):
 
 
 def mk_tuple(items):
-    return ("tuple", tuple(items))
+    out = []
+    for x in items:
+        # (a, *(b, c)) is (a, b, c)
+        if is_t(x, "star") and (is_t(x[1], "tuple") or is_t(x[1], "list")):
+            out.extend(x[1][1])
+        else:
+            out.append(x)
+    return ("tuple", tuple(out))
+
+
+def _seq_items(t):
+    """items of a term that certainly denotes a tuple / list (None otherwise): literal tuples, tuple(x) / list(x) conversions, slices"""
+    if is_t(t, "tuple") or is_t(t, "list"):
+        return list(t[1])
+    if is_t(t, "call") and t[1] in (G("tuple"), G("list")) and len(t[2]) == 1 and not t[3]:
+        inner = _seq_items(t[2][0])
+        return inner if inner is not None else [("star", t[2][0])]
+    if is_t(t, "slice"):
+        return [("star", t)]
+    return None
+
+
+def _is_tuple_like(t):
+    """certainly a tuple: a slice of something, or a Diff tree map of one (tree maps preserve the container)"""
+    if is_t(t, "slice") or is_t(t, "tuple"):
+        return True
+    if is_t(t, "call") and is_t(t[1], "attr") and t[1][2] in _TREE_TAGS and is_t(t[1][1], "global") and t[1][1][1].split(".")[-1] == "Diff" and len(t[2]) == 1 and not t[3]:
+        return _is_tuple_like(t[2][0])
+    return False
+
+
+def mk_bin(op, a, b):
+    # tuple concatenation: (a,) + tuple(b) is (a, *b)
+    if op == "+" and (is_t(a, "tuple") or is_t(b, "tuple")):
+        ia, ib = _seq_items(a), _seq_items(b)
+        if ia is not None and ib is not None:
+            return mk_tuple(ia + ib)
+    return ("bin", op, a, b)
+
+
+def mk_call(f, args, kw):
+    """generic call term with the conversions that have a canonical form"""
+    args = tuple(args)
+    if len(args) == 1 and not kw:
+        a = args[0]
+        # Diff.tree_primal / tree_tangent / no_change / unknown_change are tree maps: they distribute over a literal tuple
+        if is_t(f, "attr") and f[2] in _TREE_TAGS and is_t(f[1], "global") and f[1][1].split(".")[-1] == "Diff" and is_t(a, "tuple") and not _has_star(a):
+            return mk_tuple(mk_call(f, (x,), ()) for x in a[1])
+        # tuple(x) / list(x) of something that already is a tuple / list / slice
+        if f in (G("tuple"), G("list")):
+            if is_t(a, "tuple") or is_t(a, "list"):
+                return ("tuple" if f == G("tuple") else "list", a[1])
+            if f == G("tuple") and _is_tuple_like(a):
+                return a
+    return ("call", f, args, tuple(kw))
 
 
 def mk_cmp(op, a, b):
@@ -250,7 +328,7 @@ def mk_proj(base, i: int):
         return mk_elem(mk_proj(base[1], i))
     # Diff.tree_primal / tree_tangent / no_change / unknown_change are tree maps: projections commute with them
     if is_t(base, "call") and is_t(base[1], "attr") and base[1][2] in _TREE_TAGS and is_t(base[1][1], "global") and base[1][1][1].split(".")[-1] == "Diff" and len(base[2]) == 1 and not base[3]:
-        return ("call", base[1], (mk_proj(base[2][0], i),), ())
+        return mk_call(base[1], (mk_proj(base[2][0], i),), ())
     if is_t(base, "treemap"):
         return ("treemap", mk_proj(base[1], i), base[2])
     if is_t(base, "leaf"):
@@ -270,7 +348,7 @@ def mk_slice(base, lo, hi):
         except Exception:
             pass
     if is_t(base, "call") and is_t(base[1], "attr") and base[1][2] in _TREE_TAGS and is_t(base[1][1], "global") and base[1][1][1].split(".")[-1] == "Diff" and len(base[2]) == 1 and not base[3]:
-        return ("call", base[1], (mk_slice(base[2][0], lo, hi),), ())
+        return mk_call(base[1], (mk_slice(base[2][0], lo, hi),), ())
     if is_t(base, "tuple") and isinstance(lo, int) and lo >= 0 and hi is None:
         items = base[1]
         if not any(is_t(x, "star") for x in items[:lo]) and lo <= len(items):
@@ -306,6 +384,35 @@ def mk_attr(ev: Evaluator, base, name):
     if is_t(base, "phi"):
         return mk_phi(base[1], mk_attr(ev, base[2], name), mk_attr(ev, base[3], name))
     return ("attr", base, name)
+
+
+def phi_paths(t, conds=()):
+    """the leaves of a nested phi with their path conditions [(conds, leaf)]; a conjunction in a true arm (and a negation) is split into
+    its parts, so `if a and not b:` contributes (a, True), (b, False)"""
+    if not is_t(t, "phi"):
+        return [(conds, t)]
+
+    def pos(test):
+        if is_t(test, "bool") and test[1] == "and":
+            out = ()
+            for x in test[2]:
+                out += pos(x)
+            return out
+        if is_t(test, "un") and test[1] == "not":
+            return neg(test[2])
+        return ((test, True),)
+
+    def neg(test):
+        if is_t(test, "bool") and test[1] == "or":
+            out = ()
+            for x in test[2]:
+                out += neg(x)
+            return out
+        if is_t(test, "un") and test[1] == "not":
+            return pos(test[2])
+        return ((test, False),)
+
+    return phi_paths(t[2], conds + pos(t[1])) + phi_paths(t[3], conds + neg(t[1]))
 
 
 def subterms(t):
@@ -438,21 +545,54 @@ class _Ctx:
         self.res = res
         out_env = self.block(body, env, ())
         res.env = out_env if out_env is not None else getattr(res, "env_at_return", env)
+        # `return a if c else b` and `if c: return a` / `else: return b` are the same arms
+        def _expand(conds, t):
+            if is_t(t, "phi") and t in self.ev.py_phis:
+                return _expand(conds + ((t[1], True),), t[2]) + _expand(conds + ((t[1], False),), t[3])
+            return [(conds, t)]
+
+        res.returns[:] = [x for conds, t in res.returns for x in _expand(conds, t)]
         rets = list(res.returns)
         if out_env is not None:
             rets.append(((), C(None)))  # fall-through path
-        term = None
-        for conds, t in reversed(rets):
-            term = t if term is None else mk_phi(_conj(conds), t, term)
+        # the return value as a decision tree over the path conditions in source order: `if a: X` / `elif b: Y` / `else: Z`, the guard-clause
+        # spelling and nested conditional expressions all give phi(a, X, phi(b, Y, Z))
+        def _tree(arms):
+            if not arms:
+                return None
+            conds0, t0 = arms[0]
+            if not conds0:
+                return t0
+            c = conds0[0][0]
+            yes, no = [], []
+            for conds, t in arms:
+                if conds and conds[0][0] == c:
+                    (yes if conds[0][1] else no).append((conds[1:], t))
+                else:
+                    yes.append((conds, t))
+                    no.append((conds, t))
+            ty, tn = _tree(yes), _tree(no)
+            if ty is None:
+                return tn
+            if tn is None:
+                return ty
+            return mk_phi(c, ty, tn)
+
+        term = _tree(rets)
         res.ret = term
         return res
 
     def block(self, stmts, env, conds):
         """returns the fall-through environment or None when every path returned/raised"""
         for st in stmts:
+            self._extra = ()
             env = self.stmt(st, env, conds)
             if env is None:
                 return None
+            if isinstance(st, ast.If) and self._extra:
+                # a guard clause (`if c: return ...`): what follows runs under the other polarity, exactly as an `else:` block would
+                conds = conds + self._extra
+            self._extra = ()
         return env
 
     def stmt(self, st, env, conds):
@@ -483,6 +623,11 @@ class _Ctx:
             return env
         if isinstance(st, ast.Expr):
             v = self.expr(st.value, env)
+            c = st.value
+            if (isinstance(c, ast.Call) and isinstance(c.func, ast.Attribute) and c.func.attr == "append" and isinstance(c.func.value, ast.Name)
+                    and len(c.args) == 1 and not c.keywords and is_t(env.get(c.func.value.id), "list")):
+                # xs.append(v) on a local list literal: xs is now [..., v]
+                env[c.func.value.id] = ("list", env[c.func.value.id][1] + (self.expr(c.args[0], env),))
             env.setdefault("__effects__", [])
             env["__effects__"] = env["__effects__"] + [v]
             return env
@@ -503,7 +648,13 @@ class _Ctx:
                     test, body, orelse = mk_cmp("==", test[2], test[3]), orelse, body
             e1 = self.block(body, dict(env), conds + ((test, True),)) if body else dict(env)
             e2 = self.block(orelse, dict(env), conds + ((test, False),)) if orelse else dict(env)
-            return _join(test, e1, e2)
+            self._extra = ((test, False),) if e1 is None and e2 is not None else ((test, True),) if e2 is None and e1 is not None else ()
+            out = _join(test, e1, e2)
+            if e1 is not None and e2 is not None:
+                for v in out.values():
+                    if is_t(v, "phi") and v[1] == test:
+                        ev.py_phis.add(v)
+            return out
         if isinstance(st, ast.Match):
             return self.match(st, env, conds)
         if isinstance(st, ast.For):
@@ -553,7 +704,14 @@ class _Ctx:
             if before is None:
                 out[k] = v
             elif before != v:
-                if is_t(v, "bin") and v[1] in ("+", "|") and v[2] == before:
+                if is_t(before, "list") and is_t(v, "list") and v[1][: len(before[1])] == before[1]:
+                    # a list filled by `append` in the loop is the comprehension over the same iterable
+                    added = v[1][len(before[1]):]
+                    if not before[1] and len(added) == 1 and not _has_star(v):
+                        out[k] = ("fam", it, added[0])
+                    else:
+                        out[k] = ("bin", "+", before, ("sumover", it, ("list", added)))
+                elif is_t(v, "bin") and v[1] in ("+", "|") and v[2] == before:
                     out[k] = ("bin", v[1], before, ("sumover", it, v[3]))
                 else:
                     out[k] = ("loop", it, before, v)
@@ -708,7 +866,7 @@ class _Ctx:
                 return v[1][0]
             return ("star", v)
         if isinstance(e, ast.BinOp):
-            return ("bin", _OPS.get(type(e.op), "?"), self.expr(e.left, env), self.expr(e.right, env))
+            return mk_bin(_OPS.get(type(e.op), "?"), self.expr(e.left, env), self.expr(e.right, env))
         if isinstance(e, ast.UnaryOp):
             v = self.expr(e.operand, env)
             op = {ast.USub: "-", ast.Not: "not", ast.Invert: "~", ast.UAdd: "+"}[type(e.op)]
@@ -734,7 +892,10 @@ class _Ctx:
             return parts[0] if len(parts) == 1 else ("bool", "and", tuple(parts))
         if isinstance(e, ast.IfExp):
             test = self.expr(e.test, env)
-            return mk_phi(test, self.expr(e.body, env), self.expr(e.orelse, env))
+            v = mk_phi(test, self.expr(e.body, env), self.expr(e.orelse, env))
+            if is_t(v, "phi"):
+                ev.py_phis.add(v)
+            return v
         if isinstance(e, ast.Lambda):
             return self.make_closure(e, env, "<lambda>")
         if isinstance(e, ast.Subscript):
@@ -834,6 +995,8 @@ class _Ctx:
             if len(args) <= len(sig) and set(kwargs) <= set(sig[len(args):]) and all(n in kwargs for n in sig[len(args):len(args) + len(kwargs)]):
                 args = list(args) + [kwargs[n] for n in sig[len(args):len(args) + len(kwargs)]]
                 kwargs = {}
+        if is_t(f, "attr") and f[2] in ev.call_aliases() and f[1] != P("self"):
+            f = f[1]
         # ---- closures
         clo = ev.closure_of(f)
         if clo is not None:
@@ -861,7 +1024,7 @@ class _Ctx:
                     return r
             if is_t(inner, "global") and inner[1].endswith("incremental.incremental") or (is_t(inner, "global") and inner[1].split(".")[-1] in ("incremental", "stateful")):
                 return ("call", f, tuple(args), tuple(sorted(kwargs.items())))
-        return ("call", f, tuple(args), tuple(sorted(kwargs.items())))
+        return mk_call(f, args, sorted(kwargs.items()))
 
     def inline(self, clo: Closure, args, kwargs):
         ev = self.ev
@@ -1037,7 +1200,8 @@ class _Ctx:
             cis = ev.prog.class_index.get(short)
             if cis:
                 ci = cis[0]
-                if name in ci.methods and (short, name) in _INLINE_STATIC:
+                if name in ci.methods and ((short, name) in _INLINE_STATIC or (
+                        name.startswith("_") and not name.startswith("__") and name not in ev.opaque_methods and _pure_wiring(ci.methods[name]))):
                     fn = ci.methods[name]
                     clo = Closure(fn, {}, ci.module, ci, f"{short}.{name}")
                     r = self.inline(clo, list(args), kwargs)
@@ -1201,6 +1365,23 @@ def _always_returns(body) -> bool:
     if isinstance(last, ast.With):
         return _always_returns(last.body)
     return False
+
+
+_WIRING_BUILTINS = {"tuple", "list", "len", "isinstance", "zip", "range", "dict", "enumerate", "reversed"}
+
+
+def _pure_wiring(fn) -> bool:
+    """a private static helper that only re-arranges its arguments (unpacking, tuples, slices, builtin conversions): seeing through it
+    is the same as reading its body at the call site.  Helpers that compute (jnp / jax calls) stay opaque calls."""
+    if not any((_dotted(d) or "") == "staticmethod" for d in fn.decorator_list):
+        return False
+    for n in ast.walk(fn):
+        if isinstance(n, ast.Call):
+            if not (isinstance(n.func, ast.Name) and n.func.id in _WIRING_BUILTINS):
+                return False
+        if isinstance(n, (ast.For, ast.While, ast.Try, ast.With, ast.Yield, ast.YieldFrom, ast.Lambda)):
+            return False
+    return True
 
 
 def _is_abstract(fn) -> bool:
